@@ -636,6 +636,32 @@ pub fn worker_main(scn: &Value, report: &Value, shared_path: Option<String>, out
     CLIENT.with(|c| *c.borrow_mut() = Some(client));
     minidump_writer::verif_hooks::set_hook(Some(Box::new(hook)));
 
+    // "interrupt_wait": while the dump waits for an attached thread that cannot stop yet (one in vfork()), the dumping thread
+    // takes a handled signal without SA_RESTART - its waitpid returns EINTR - several times
+    if faults.get("interrupt_wait").and_then(|v| v.as_bool()).unwrap_or(false) {
+        extern "C" fn noop(_: i32) {}
+        unsafe {
+            let mut sa: libc::sigaction = std::mem::zeroed();
+            sa.sa_sigaction = noop as usize;
+            sa.sa_flags = 0;
+            libc::sigaction(libc::SIGUSR1, &sa, std::ptr::null_mut());
+        }
+        let me = unsafe { libc::syscall(libc::SYS_gettid) } as i32;
+        let slow: Vec<i64> = report["threads"].as_array().map(|a| a.iter().filter(|t| t["mode"] == "vfork").filter_map(|t| t["tid"].as_i64()).collect()).unwrap_or_default();
+        std::thread::spawn(move || {
+            for _ in 0..4000 {
+                let held = slow.iter().any(|t| target::task_status(pid, *t as i32)["tracer"].as_i64().unwrap_or(0) != 0);
+                if held {
+                    for _ in 0..3 {
+                        unsafe { libc::syscall(libc::SYS_tgkill, libc::getpid(), me, libc::SIGUSR1) };
+                        std::thread::sleep(Duration::from_millis(20));
+                    }
+                    return;
+                }
+                std::thread::sleep(Duration::from_millis(1));
+            }
+        });
+    }
     let history = scn.get("history").and_then(|v| v.as_array()).cloned().unwrap_or_else(|| vec![json!({"op":"dump"})]);
     let mut dump_no = 0;
     for step in history {
